@@ -158,6 +158,9 @@ def ob_linear_other_grid(ctx, name, D, a, a2):
     out = t.points(x2, grid=h, axes=Axes.from_align_corners(a2), to_axes=Axes.WORLD)
     ref2 = _world_map(P, a, lambda z: homogeneous_transform(M, z), ref_map(ax2, "world", x2[0], Q))
     ctx.eq(out[0], ref2, f"{name}: points(grid=other, to_axes=WORLD) == world map")
+    # documented defaults: output with respect to the same (grid, axes) as the input when to_grid / to_axes are omitted
+    out3 = t.points(x2, grid=h, axes=Axes.from_align_corners(a2))
+    ctx.eq(out3[0], ref_map("world", ax2, ref2, Q), f"{name}: points(grid=other) returns coordinates of the other grid (to_grid defaults to grid)")
 
 
 def ob_composite(ctx, kind, names, D, a):
